@@ -552,6 +552,9 @@ func (l *leader) changeConfig(config Config) {
 			repl.status.removed = true
 			close(repl.stopCh)
 			delete(l.repls, id)
+			// it reads the log through its own view: nothing that is decided
+			// without it from now on (compaction) may start before it is gone
+			<-repl.done
 		}
 	}
 
